@@ -142,7 +142,7 @@ def pred_const_fn(d, r, name):
     return None
 
 
-REGEX_SRC = {"re_has_a": "a", "re_lower": "^[a-z]+$", "re_digits": "^[0-9]*$"}
+REGEX_SRC = {"re_has_a": "a", "re_lower": "^[a-z]+$", "re_digits": "^[0-9]*$", "re_a_dot": "a."}
 
 
 def custom_val_items(d, r):
